@@ -61,7 +61,8 @@ impl Prop for PExec {
             let log = dir.parent().unwrap().join("vrec.log");
             let _ = std::fs::remove_file(&log);
             let plus = input["plus"].as_bool().unwrap_or(true);
-            let mut args: Vec<String> = vec!["/".into(), "-maxdepth".into(), "0".into(), (if input["execdir"].as_bool().unwrap_or(true) { "-execdir" } else { "-exec" }).into(),
+            let start = input.get("start").and_then(|x| x.as_str()).unwrap_or("/").to_string();
+            let mut args: Vec<String> = vec![start, "-maxdepth".into(), "0".into(), (if input["execdir"].as_bool().unwrap_or(true) { "-execdir" } else { "-exec" }).into(),
                                              vrec_path().to_string_lossy().into_owned(), "{}".into()];
             args.push(if plus { "+".into() } else { ";".into() });
             let env = vec![("VREC_LOG".to_string(), log.to_string_lossy().into_owned())];
@@ -211,7 +212,8 @@ impl Prop for PExec {
             return json!({"mode": "reltool", "plus": self.flavour == "C08"});
         }
         if idx % 50 == 17 {
-            return json!({"mode": "rootdir", "execdir": !rng.chance(1, 4), "plus": if self.flavour == "C08" { true } else { false }});
+            return json!({"mode": "rootdir", "execdir": !rng.chance(1, 4), "plus": if self.flavour == "C08" { true } else { false },
+                          "start": *rng.pick(&["/", "/", "/usr", "/usr/", "//usr"])});
         }
         // a random tree with hostile names, -P, starting points that are not links
         let hostile: [&str; 16] = ["a", "b c", "{}", "-n", "q'\"", "x\ny", " ", "*", "$(id)", "é", "a{}b", "--", ";", "+", "\\", "{} {}"];
